@@ -414,9 +414,12 @@ class Body:
         if "val" in op:
             return ("const", op["val"])
         txt = op["text"]
-        m = re.match(r'^const "(.*)"$', txt, re.S)
+        m = re.match(r'^(?:const )?"(.*)"$', txt, re.S)
         if m:
-            return ("str", m.group(1))
+            return ("str", rust_unescape(m.group(1)))
+        m = re.match(r"^(?:const )?'(.*)'$", txt, re.S)
+        if m and op.get("ty") == "char":
+            return ("const", ord(rust_unescape(m.group(1))[0]))
         if txt in ("const ()", "()"):
             return ("unit",)
         if "const_path" in op:
@@ -608,6 +611,15 @@ class Body:
 
     def local_name(self, l):
         return self.names.get(l, "_%d" % l)
+
+
+def rust_unescape(t):
+    def rep(m):
+        c = m.group(1)
+        if c[0] == "u":
+            return chr(int(c[2:-1], 16))
+        return {"n": "\n", "t": "\t", "r": "\r", "0": "\0", "\\": "\\", '"': '"', "'": "'"}.get(c, c)
+    return re.sub(r"\\(u\{[0-9a-fA-F]+\}|.)", rep, t)
 
 
 def _is_deref_only(place):
